@@ -60,7 +60,8 @@ def plan(tier, seed):
 def floors(tier):
     return {"distinct_nontrivial": 300, "cls:decl:let": 300, "cls:decl:from": 300, "cls:decl:from_kw": 200, "cls:mixed_types": 200,
             "cls:round:partial": 500, "cls:round:exhausted": 300, "cls:caching_off": 200, "pull_checks": 3000,
-            "cls:no_condition": 100, "cls:round:iterator_kept_alive": 300, "cls:iterator_without_any_instance_of_the_type": 100}
+            "cls:no_condition": 100, "cls:round:iterator_kept_alive": 300, "cls:iterator_without_any_instance_of_the_type": 100,
+            "cls:second_variable:operand": 100, "cls:second_variable:lead_an": 100, "cls:second_variable:lead_forall": 100}
 
 
 def cases(spec, ctx):
@@ -78,7 +79,11 @@ def cases(spec, ctx):
         yield {"world": world, "cond": cond, "decl": decl, "kw": kw, "mixed": mixed, "rounds": rounds,
                "caching": rng.random() < 0.7, "form": rng.choice(["entity", "entity", "direct"]),
                # the iterator may hold no object of the variable's type at all (such objects exist elsewhere in the process)
-               "no_instance": rng.random() < 0.06}
+               "no_instance": rng.random() < 0.06,
+               # a second variable (over a short list) in a nested sub-query operand, or in a condition written BEFORE the one on
+               # the iterator-backed variable: the iterator is still pulled only as far as the results asked for need
+               "subq": {"kind": rng.choice(["operand", "lead_an", "lead_forall"]), "vals": rng.sample([1, 2, 3, 4], rng.randint(2, 3)),
+                        "k": rng.randint(0, 3)} if rng.random() < 0.2 else None}
 
 
 def check_case(case, ctx):
@@ -96,19 +101,37 @@ def check_case(case, ctx):
     kept = []
     cond = case["cond"]
     kw = case.get("kw") or {}
-    qual = [i for i, o in enumerate(items) if isinstance(o, D.P) and all(getattr(o, f) == v for f, v in kw.items())
-            and (cond is None or C.holds(cond, (o,)))]
+    sq = case.get("subq") if case["decl"] != "from_kw" else None
+    glob = True
+    if sq and sq["kind"] == "lead_an":
+        glob = sq["k"] % 2 == 1      # the sub-query asks for vals[0] (exactly one solution) or for 99 (none): no hidden multiplicity
+    elif sq and sq["kind"] == "lead_forall":
+        glob = all(v > sq["k"] for v in sq["vals"])
+    qual = [i for i, o in enumerate(items) if glob and isinstance(o, D.P) and all(getattr(o, f) == v for f, v in kw.items())
+            and (cond is None or C.holds(cond, (o,))) and (not sq or sq["kind"] != "operand" or o.a in sq["vals"])]
+    if sq:
+        ctx.cls("cls:second_variable:" + sq["kind"])
     ctx.cls("cls:no_condition" if cond is None else "cls:with_condition")
     ctx.cls("cls:decl:" + case["decl"])
     ctx.cls("cls:caching_on" if case["caching"] else "cls:caching_off")
     if case["mixed"]:
         ctx.cls("cls:mixed_types")
     li = LogIter(items)
+    ys_objects = [D.P(a=v) for v in sq["vals"]] if sq else []      # (concrete objects: built outside the symbolic block)
     (enable_caching if case["caching"] else disable_caching)()
     try:
         with symbolic_mode():
             x = let(D.P, li) if case["decl"] == "let" else D.P(From(li), **kw)
             conds = [] if cond is None else [C.build(cond, [x], 0, True)]
+            if sq:
+                from entity_query_language import for_all
+                y = let(D.P, ys_objects)
+                if sq["kind"] == "operand":
+                    conds.append(x.a == an(entity(y, y.a >= 0)).a)
+                elif sq["kind"] == "lead_an":
+                    conds.insert(0, an(entity(y, y.a == (sq["vals"][0] if sq["k"] % 2 == 1 else 99))))
+                else:
+                    conds.insert(0, for_all(y, y.a > sq["k"]))
             q = an(x, *conds) if case.get("form") == "direct" and conds else an(entity(x, *conds))
         if li.log:
             ctx.fail("PULLED_WHILE_BUILDING", {"log": list(li.log)})
